@@ -11,7 +11,7 @@ use atomic::Atomic;
 use static_assertions::const_assert;
 
 use crate::ebr_impl::{global_epoch, Guard, Tagged};
-use crate::utils::{Raw, RcInner};
+use crate::utils::{checked_count, Raw, RcInner};
 use crate::{Weak, WeakSnapshot};
 
 /// A common trait for reference-counted object types.
@@ -483,7 +483,7 @@ impl<T: RcObject> Rc<T> {
             drop(Self::new(obj));
             return [(); N].map(|_| Self::null());
         }
-        let ptr = RcInner::alloc(obj, N as _);
+        let ptr = RcInner::alloc(obj, checked_count(N));
         [(); N].map(|_| Self {
             ptr: Raw::from(ptr),
             _marker: PhantomData,
@@ -506,7 +506,7 @@ impl<T: RcObject> Rc<T> {
                 ptr: Raw::null(),
             };
         }
-        let ptr = RcInner::alloc(obj, count as _);
+        let ptr = RcInner::alloc(obj, checked_count(count));
         NewRcIter {
             remain: count,
             ptr: Raw::from(ptr),
@@ -521,7 +521,7 @@ impl<T: RcObject> Rc<T> {
     #[inline]
     pub fn weak_many<const N: usize>(&self) -> [Weak<T>; N] {
         if let Some(cnt) = unsafe { self.ptr.as_raw().as_ref() } {
-            cnt.increment_weak(N as u32);
+            cnt.increment_weak(checked_count(N));
         }
         array::from_fn(|_| Weak::from_raw(self.ptr))
     }
